@@ -9,6 +9,22 @@ EXTENDS XjsParser
 
 IsNilNode(n) == n.k \in {"nil", "tnil"}
 
+\* tree constructors
+Id(x) == Node("id", x, <<>>)
+Num(x) == Node("num", x, <<>>)
+A == Id("a")
+B == Id("b")
+PList(ps) == Node("params", "", ps)
+Blk(s) == Node("blk", "", s)
+E(e) == Node("expr", "", <<e>>)
+Ret(e) == Node("ret", "", <<e>>)
+Let(x, e) == Node("let", "", <<Id(x), e>>)
+Fn(name, ps, body) == Node("fn", "", <<name, PList(ps), Blk(body)>>)
+Bin(op, l, r) == Node("bin", op, <<l, r>>)
+Prog(s) == Node("prog", "", s)
+Grp(e) == Node("grp", "", <<e>>)
+If(c, th, el) == Node("if", "", <<c, th, el>>)
+
 \* positions (1-based child indices) that may legitimately be absent
 OptionalChild(n, j) ==
   \/ n.k = "let"  /\ j = 2            \* no initialiser
@@ -51,5 +67,288 @@ C11_Failures(toks, res) ==
   \cup (IF C11_NoNil(res) THEN {} ELSE {"nil_in_statement_list"})
   \cup (IF C11_ErrRange(toks, res) THEN {} ELSE {"error_range_not_a_token"})
   \cup (IF C11_Complete(res) THEN {} ELSE {"incomplete_or_compile_panic"})
+
+---------------------------------------------------------------------------
+(***************************************************************************)
+(* ECMAScript reference grammar of the subset (independent of the parser's *)
+(* binding-power table): operator levels, well-formedness of a tree with   *)
+(* respect to them, the in-order token yield of a tree, automatic          *)
+(* semicolon insertion, and an independent unparser to token lists.        *)
+(* CL: function  custom operator name -> level  (empty for plain xjs).     *)
+(***************************************************************************)
+ES_ASSIGN == 2
+ES_UNARY == 9
+ES_POSTFIX == 10
+ES_LHS == 11        \* call / member / index chains (LeftHandSideExpression)
+ES_PRIMARY == 13
+
+ESBinLevel(op) ==
+  CASE op = "||" -> 3 [] op = "&&" -> 4 [] op \in {"==", "!="} -> 5
+    [] op \in {"<", ">", "<=", ">="} -> 6 [] op \in {"+", "-"} -> 7
+    [] op \in {"*", "/", "%"} -> 8 [] OTHER -> 0
+
+OpTy(op) ==
+  CASE op = "||" -> "OR" [] op = "&&" -> "AND" [] op = "==" -> "EQ" [] op = "!=" -> "NOT_EQ"
+    [] op = "<" -> "LT" [] op = ">" -> "GT" [] op = "<=" -> "LTE" [] op = ">=" -> "GTE"
+    [] op = "+" -> "PLUS" [] op = "-" -> "MINUS" [] op = "*" -> "MULTIPLY" [] op = "/" -> "DIVIDE"
+    [] op = "%" -> "MODULO" [] op = "!" -> "NOT" [] op = "++" -> "INCREMENT" [] op = "--" -> "DECREMENT"
+    [] op = "=" -> "ASSIGN" [] op = "+=" -> "PLUS_ASSIGN" [] op = "-=" -> "MINUS_ASSIGN"
+    [] OTHER -> op     \* custom operators: the token type is the operator's name
+
+Lv(n, CL) ==
+  CASE n.k = "bin" -> ESBinLevel(n.op)
+    [] n.k \in {"asg", "casg"} -> ES_ASSIGN
+    [] n.k = "un" -> ES_UNARY
+    [] n.k = "post" -> ES_POSTFIX
+    [] n.k \in {"call", "mem", "idx"} -> ES_LHS
+    [] n.k = "cbin" -> CL[n.op]
+    [] n.k = "cun" -> ES_UNARY
+    [] n.k = "cpost" -> ES_LHS
+    [] OTHER -> ES_PRIMARY
+
+IsTarget(n) == n.k \in {"id", "mem", "idx"}
+IsStmtKind(k) == k \in {"let", "ret", "expr", "fdecl", "blk", "if", "while", "for", "prog"}
+
+RECURSIVE WellFormedES(_, _)
+WellFormedES(n, CL) ==
+  /\ CASE n.k \in {"bin", "cbin"} ->
+            /\ Len(n.c) = 2 /\ Lv(n, CL) > 0
+            /\ Lv(n.c[1], CL) >= Lv(n, CL)        \* left operand: same level or tighter
+            /\ Lv(n.c[2], CL) > Lv(n, CL)         \* right operand: strictly tighter (left assoc.)
+       [] n.k \in {"asg", "casg"} -> IsTarget(n.c[1]) /\ Lv(n.c[2], CL) >= ES_ASSIGN
+       [] n.k = "un" -> /\ Lv(n.c[1], CL) >= ES_UNARY
+                        /\ (n.op \in {"++", "--"} => IsTarget(n.c[1]))
+       [] n.k = "cun" -> Lv(n.c[1], CL) >= ES_UNARY
+       [] n.k = "post" -> Lv(n.c[1], CL) >= ES_LHS /\ IsTarget(n.c[1])
+       [] n.k = "cpost" -> Lv(n.c[1], CL) >= ES_LHS
+       [] n.k = "call" -> /\ Lv(n.c[1], CL) >= ES_LHS
+                          /\ \A j \in 2..Len(n.c) : Lv(n.c[j], CL) >= ES_ASSIGN
+       [] n.k = "mem" -> Lv(n.c[1], CL) >= ES_LHS /\ n.c[2].k = "id"
+       [] n.k = "idx" -> Lv(n.c[1], CL) >= ES_LHS
+       [] OTHER -> TRUE
+  /\ \A j \in 1..Len(n.c) : IsNilNode(n.c[j]) \/ WellFormedES(n.c[j], CL)
+
+---------------------------------------------------------------------------
+(* Tokens of the reference side: [ty, lit, nl] plus renderer marks:        *)
+(*   nonl  a line break in front of this token would change the program    *)
+(*         (restricted productions: after `return`, before postfix ++/--)  *)
+(*   sb    first token of a statement that follows another in a list       *)
+(*   opt   a statement-terminating `;` (may be left to ASI)                *)
+Tk(ty, lit) == [ty |-> ty, lit |-> lit, nl |-> FALSE, nonl |-> FALSE, sb |-> FALSE, opt |-> FALSE]
+Kw(ty) == Tk(ty, "")
+MarkFirst(ts, f) == IF Len(ts) = 0 THEN ts ELSE [ts EXCEPT ![1] = [@ EXCEPT ![f] = TRUE]]
+
+RECURSIVE RenderE(_, _, _, _), RenderList(_, _, _), RenderS(_, _, _), RenderSeq(_, _, _, _), RenderObj(_, _, _)
+
+Paren(ts) == <<Kw("LPAREN")>> \o ts \o <<Kw("RPAREN")>>
+
+\* expression n in a position that requires level >= min; red: also parenthesise every
+\* non-primary operand (redundant parentheses)
+RenderE(n, min, red, CL) ==
+  LET lv == Lv(n, CL)
+      body ==
+        CASE n.k = "id" -> <<Tk("IDENT", n.op)>>
+          [] n.k = "num" -> <<Tk("INT", n.op)>>
+          [] n.k = "flt" -> <<Tk("FLOAT", n.op)>>
+          [] n.k = "str" -> <<Tk("STRING", n.op)>>
+          [] n.k = "raw" -> <<Tk("RAW_STRING", n.op)>>
+          [] n.k = "bool" -> <<Kw(IF n.op = "true" THEN "TRUE" ELSE "FALSE")>>
+          [] n.k = "null" -> <<Kw("NULL")>>
+          [] n.k = "grp" -> Paren(RenderE(n.c[1], 1, FALSE, CL))
+          [] n.k \in {"bin", "cbin"} ->
+               RenderE(n.c[1], lv, red, CL) \o <<Tk(OpTy(n.op), n.op)>> \o RenderE(n.c[2], lv + 1, red, CL)
+          [] n.k \in {"asg", "casg"} ->
+               RenderE(n.c[1], ES_LHS, FALSE, CL) \o <<Tk(OpTy(n.op), n.op)>> \o RenderE(n.c[2], ES_ASSIGN, red, CL)
+          [] n.k \in {"un", "cun"} -> <<Tk(OpTy(n.op), n.op)>> \o RenderE(n.c[1], ES_UNARY, red /\ n.op \notin {"++", "--"}, CL)
+          [] n.k = "post" -> RenderE(n.c[1], ES_LHS, FALSE, CL) \o <<[Tk(OpTy(n.op), n.op) EXCEPT !.nonl = TRUE]>>
+          [] n.k = "cpost" -> RenderE(n.c[1], ES_LHS, FALSE, CL) \o <<Tk(OpTy(n.op), n.op)>>
+          [] n.k = "call" ->
+               RenderE(n.c[1], ES_LHS, FALSE, CL) \o <<Kw("LPAREN")>> \o RenderList(SubSeq(n.c, 2, Len(n.c)), red, CL) \o <<Kw("RPAREN")>>
+          [] n.k = "mem" -> RenderE(n.c[1], ES_LHS, FALSE, CL) \o <<Kw("DOT")>> \o RenderE(n.c[2], ES_PRIMARY, FALSE, CL)
+          [] n.k = "idx" ->
+               RenderE(n.c[1], ES_LHS, FALSE, CL) \o <<Kw("LBRACKET")>> \o RenderE(n.c[2], 1, red, CL) \o <<Kw("RBRACKET")>>
+          [] n.k = "arr" -> <<Kw("LBRACKET")>> \o RenderList(n.c, red, CL) \o <<Kw("RBRACKET")>>
+          [] n.k = "obj" -> <<Kw("LBRACE")>> \o RenderObj(n.c, red, CL) \o <<Kw("RBRACE")>>
+          [] n.k = "fn" ->
+               <<Kw("FUNCTION")>> \o (IF IsNilNode(n.c[1]) THEN <<>> ELSE <<Tk("IDENT", n.c[1].op)>>)
+               \o <<Kw("LPAREN")>> \o RenderList(n.c[2].c, FALSE, CL) \o <<Kw("RPAREN")>> \o RenderS(n.c[3], FALSE, CL)
+          [] n.k = "lete" ->
+               <<Kw("LET"), Tk("IDENT", n.c[1].op)>>
+               \o (IF IsNilNode(n.c[2]) THEN <<>> ELSE <<Kw("ASSIGN")>> \o RenderE(n.c[2], ES_ASSIGN, red, CL))
+  IN IF lv < min \/ (red /\ lv < ES_PRIMARY /\ n.k # "lete") THEN Paren(body) ELSE body
+
+RenderList(es, red, CL) ==
+  IF Len(es) = 0 THEN <<>>
+  ELSE RenderE(es[1], ES_ASSIGN, red, CL)
+       \o (IF Len(es) = 1 THEN <<>> ELSE <<Kw("COMMA")>> \o RenderList(Tail(es), red, CL))
+
+RenderObj(kv, red, CL) ==
+  IF Len(kv) = 0 THEN <<>>
+  ELSE RenderE(kv[1], ES_PRIMARY, FALSE, CL) \o <<Kw("COLON")>> \o RenderE(kv[2], ES_ASSIGN, red, CL)
+       \o (IF Len(kv) = 2 THEN <<>> ELSE <<Kw("COMMA")>> \o RenderObj(SubSeq(kv, 3, Len(kv)), red, CL))
+
+Semi == [Kw("SEMICOLON") EXCEPT !.opt = TRUE]
+\* tokens that must not start an expression statement (they would start another construct)
+StartsOtherConstruct(ts) == Len(ts) > 0 /\ ts[1].ty \in {"FUNCTION", "LBRACE", "LET"}
+
+\* statement s; red: redundant parentheses.  Terminating `;` is always emitted (marked
+\* opt); layouts drop it where ASI applies.
+RenderS(s, red, CL) ==
+  LET r == red IN
+  CASE s.k = "expr" -> RenderE(s.c[1], 1, r, CL) \o <<Semi>>
+    [] s.k = "let" ->
+         <<Kw("LET"), Tk("IDENT", s.c[1].op)>>
+         \o (IF IsNilNode(s.c[2]) THEN <<>> ELSE <<Kw("ASSIGN")>> \o RenderE(s.c[2], ES_ASSIGN, r, CL)) \o <<Semi>>
+    [] s.k = "ret" ->
+         <<Kw("RETURN")>> \o (IF IsNilNode(s.c[1]) THEN <<>> ELSE MarkFirst(RenderE(s.c[1], 1, r, CL), "nonl")) \o <<Semi>>
+    [] s.k = "blk" -> <<Kw("LBRACE")>> \o RenderSeq(s.c, 1, red, CL) \o <<Kw("RBRACE")>>
+    [] s.k = "fdecl" ->
+         <<Kw("FUNCTION"), Tk("IDENT", s.c[1].op), Kw("LPAREN")>> \o RenderList(s.c[2].c, FALSE, CL)
+         \o <<Kw("RPAREN")>> \o RenderS(s.c[3], red, CL)
+    [] s.k = "if" ->
+         <<Kw("IF"), Kw("LPAREN")>> \o RenderE(s.c[1], 1, r, CL) \o <<Kw("RPAREN")>> \o RenderS(s.c[2], red, CL)
+         \o (IF IsNilNode(s.c[3]) THEN <<>> ELSE <<Kw("ELSE")>> \o RenderS(s.c[3], red, CL))
+    [] s.k = "while" ->
+         <<Kw("WHILE"), Kw("LPAREN")>> \o RenderE(s.c[1], 1, r, CL) \o <<Kw("RPAREN")>> \o RenderS(s.c[2], red, CL)
+    [] s.k = "for" ->
+         <<Kw("FOR"), Kw("LPAREN")>>
+         \o (IF IsNilNode(s.c[1]) THEN <<>> ELSE RenderE(s.c[1], 1, r, CL)) \o <<Kw("SEMICOLON")>>
+         \o (IF IsNilNode(s.c[2]) THEN <<>> ELSE RenderE(s.c[2], 1, r, CL)) \o <<Kw("SEMICOLON")>>
+         \o (IF IsNilNode(s.c[3]) THEN <<>> ELSE RenderE(s.c[3], 1, r, CL)) \o <<Kw("RPAREN")>>
+         \o RenderS(s.c[4], red, CL)
+
+RenderSeq(ss, j, red, CL) ==
+  IF j > Len(ss) THEN <<>>
+  ELSE (IF j = 1 THEN RenderS(ss[j], red, CL) ELSE MarkFirst(RenderS(ss[j], red, CL), "sb"))
+       \o RenderSeq(ss, j + 1, red, CL)
+
+RenderProg(p, red, CL) == RenderSeq(p.c, 1, red, CL)
+
+\* A rendered program is inside the subset only when no expression statement starts with a token
+\* that would start a declaration / block / let statement instead.
+RECURSIVE StmtStartsOK(_, _)
+StmtStartsOK(n, CL) ==
+  /\ (n.k = "expr" => ~StartsOtherConstruct(RenderE(n.c[1], 1, FALSE, CL)))
+  /\ \A j \in 1..Len(n.c) : IsNilNode(n.c[j]) \/ StmtStartsOK(n.c[j], CL)
+
+---------------------------------------------------------------------------
+(* Layouts.  sep: 1 = `;` and a space, 2 = line break only (ASI), 3 = `;` and a line break.      *)
+(* brk: set of token indices that get a line break in front (only where ~nonl).                 *)
+\* tokens in front of which a line break does NOT end the previous statement in ECMAScript
+\* (the statement simply continues), so "line break only" cannot separate there
+ContinuesAcrossNewline(ty) ==
+  ty \in {"LPAREN", "LBRACKET", "MINUS", "PLUS", "RAW_STRING", "DOT", "ASSIGN", "PLUS_ASSIGN", "MINUS_ASSIGN",
+          "MULTIPLY", "DIVIDE", "MODULO", "EQ", "NOT_EQ", "LT", "GT", "LTE", "GTE", "AND", "OR", "COMMA"}
+
+\* can the opt `;` at position j be dropped under separator mode sep?  (next token decides)
+SepOK(ts, sep) ==
+  sep # 2 \/ \A j \in 1..Len(ts) :
+     (ts[j].opt /\ j < Len(ts)) =>
+        LET nx == ts[j + 1] IN
+        \/ nx.ty = "RBRACE"
+        \/ nx.ty = "ELSE"                                \* `b \n else` - ASI before the offending token
+        \/ ~ContinuesAcrossNewline(nx.ty) /\ ~nx.nonl
+
+RECURSIVE LayoutFrom(_, _, _, _)
+LayoutFrom(ts, j, sep, brk) ==
+  IF j > Len(ts) THEN <<>>
+  ELSE LET t     == ts[j]
+           prevOptDropped == sep = 2 /\ j > 1 /\ ts[j - 1].opt
+           afterSemiNl    == sep = 3 /\ j > 1 /\ ts[j - 1].opt
+           nlHere == \/ j \in brk /\ ~t.nonl /\ j > 1
+                     \/ (prevOptDropped /\ t.ty # "RBRACE") \/ afterSemiNl
+                     \/ (sep \in {2, 3} /\ t.sb)
+       IN IF sep = 2 /\ t.opt THEN LayoutFrom(ts, j + 1, sep, brk)
+          ELSE <<[ty |-> t.ty, lit |-> t.lit, nl |-> nlHere, ok |-> TRUE]>> \o LayoutFrom(ts, j + 1, sep, brk)
+
+\* the laid-out token list, closed by EOF
+Layout(ts, sep, brk) ==
+  LET body == LayoutFrom(ts, 1, sep, brk)
+  IN body \o <<[ty |-> "EOF", lit |-> "", nl |-> (sep = 3 /\ Len(ts) > 0 /\ ts[Len(ts)].opt), ok |-> TRUE]>>
+
+---------------------------------------------------------------------------
+(* The declarative property of C02 on an observed (token list, tree):       *)
+(*   Yield    the in-order yield of the tree is the token list, up to       *)
+(*            statement-terminating semicolons                              *)
+(*   WF       every operator node is well-formed w.r.t. the ES levels       *)
+(*   ASI      every statement end without `;` is one where ES inserts one,  *)
+(*            and the restricted productions are honoured                   *)
+\* yield of the real tree: like rendering with no added parentheses (grouping nodes are explicit)
+RECURSIVE YieldE(_), YieldList(_), YieldObj(_), YieldS(_), YieldSeq(_, _)
+YieldE(n) ==
+  CASE n.k = "id" -> <<Tk("IDENT", n.op)>>
+    [] n.k = "num" -> <<Tk("INT", n.op)>>
+    [] n.k = "flt" -> <<Tk("FLOAT", n.op)>>
+    [] n.k = "str" -> <<Tk("STRING", n.op)>>
+    [] n.k = "raw" -> <<Tk("RAW_STRING", n.op)>>
+    [] n.k = "bool" -> <<Kw(IF n.op = "true" THEN "TRUE" ELSE "FALSE")>>
+    [] n.k = "null" -> <<Kw("NULL")>>
+    [] n.k = "grp" -> Paren(YieldE(n.c[1]))
+    [] n.k \in {"bin", "cbin", "asg", "casg"} -> YieldE(n.c[1]) \o <<Tk(OpTy(n.op), n.op)>> \o YieldE(n.c[2])
+    [] n.k \in {"un", "cun"} -> <<Tk(OpTy(n.op), n.op)>> \o YieldE(n.c[1])
+    [] n.k \in {"post", "cpost"} -> YieldE(n.c[1]) \o <<[Tk(OpTy(n.op), n.op) EXCEPT !.nonl = (n.k = "post")]>>
+    [] n.k = "call" -> YieldE(n.c[1]) \o <<Kw("LPAREN")>> \o YieldList(SubSeq(n.c, 2, Len(n.c))) \o <<Kw("RPAREN")>>
+    [] n.k = "mem" -> YieldE(n.c[1]) \o <<Kw("DOT")>> \o YieldE(n.c[2])
+    [] n.k = "idx" -> YieldE(n.c[1]) \o <<Kw("LBRACKET")>> \o YieldE(n.c[2]) \o <<Kw("RBRACKET")>>
+    [] n.k = "arr" -> <<Kw("LBRACKET")>> \o YieldList(n.c) \o <<Kw("RBRACKET")>>
+    [] n.k = "obj" -> <<Kw("LBRACE")>> \o YieldObj(n.c) \o <<Kw("RBRACE")>>
+    [] n.k = "fn" ->
+         <<Kw("FUNCTION")>> \o (IF IsNilNode(n.c[1]) THEN <<>> ELSE <<Tk("IDENT", n.c[1].op)>>)
+         \o <<Kw("LPAREN")>> \o YieldList(n.c[2].c) \o <<Kw("RPAREN")>> \o YieldS(n.c[3])
+    [] n.k = "lete" ->
+         <<Kw("LET"), Tk("IDENT", n.c[1].op)>>
+         \o (IF IsNilNode(n.c[2]) THEN <<>> ELSE <<Kw("ASSIGN")>> \o YieldE(n.c[2]))
+    [] OTHER -> <<Tk("?", n.k)>>
+YieldList(es) ==
+  IF Len(es) = 0 THEN <<>>
+  ELSE YieldE(es[1]) \o (IF Len(es) = 1 THEN <<>> ELSE <<Kw("COMMA")>> \o YieldList(Tail(es)))
+YieldObj(kv) ==
+  IF Len(kv) = 0 THEN <<>>
+  ELSE YieldE(kv[1]) \o <<Kw("COLON")>> \o YieldE(kv[2])
+       \o (IF Len(kv) = 2 THEN <<>> ELSE <<Kw("COMMA")>> \o YieldObj(SubSeq(kv, 3, Len(kv))))
+YieldS(s) ==
+  CASE s.k = "expr" -> YieldE(s.c[1]) \o <<Semi>>
+    [] s.k = "let" ->
+         <<Kw("LET"), Tk("IDENT", s.c[1].op)>>
+         \o (IF IsNilNode(s.c[2]) THEN <<>> ELSE <<Kw("ASSIGN")>> \o YieldE(s.c[2])) \o <<Semi>>
+    [] s.k = "ret" -> <<Kw("RETURN")>> \o (IF IsNilNode(s.c[1]) THEN <<>> ELSE MarkFirst(YieldE(s.c[1]), "nonl")) \o <<Semi>>
+    [] s.k = "blk" -> <<Kw("LBRACE")>> \o YieldSeq(s.c, 1) \o <<Kw("RBRACE")>>
+    [] s.k = "fdecl" ->
+         <<Kw("FUNCTION"), Tk("IDENT", s.c[1].op), Kw("LPAREN")>> \o YieldList(s.c[2].c) \o <<Kw("RPAREN")>> \o YieldS(s.c[3])
+    [] s.k = "if" ->
+         <<Kw("IF"), Kw("LPAREN")>> \o YieldE(s.c[1]) \o <<Kw("RPAREN")>> \o YieldS(s.c[2])
+         \o (IF IsNilNode(s.c[3]) THEN <<>> ELSE <<Kw("ELSE")>> \o YieldS(s.c[3]))
+    [] s.k = "while" -> <<Kw("WHILE"), Kw("LPAREN")>> \o YieldE(s.c[1]) \o <<Kw("RPAREN")>> \o YieldS(s.c[2])
+    [] s.k = "for" ->
+         <<Kw("FOR"), Kw("LPAREN")>>
+         \o (IF IsNilNode(s.c[1]) THEN <<>> ELSE YieldE(s.c[1])) \o <<Kw("SEMICOLON")>>
+         \o (IF IsNilNode(s.c[2]) THEN <<>> ELSE YieldE(s.c[2])) \o <<Kw("SEMICOLON")>>
+         \o (IF IsNilNode(s.c[3]) THEN <<>> ELSE YieldE(s.c[3])) \o <<Kw("RPAREN")>> \o YieldS(s.c[4])
+    [] OTHER -> <<Tk("?", s.k)>>
+YieldSeq(ss, j) == IF j > Len(ss) THEN <<>> ELSE YieldS(ss[j]) \o YieldSeq(ss, j + 1)
+
+\* Match the yield y (with opt `;` marks and nonl marks) against the observed tokens toks
+\* (last one EOF): returns TRUE iff they agree and every virtual semicolon is justified by ES.
+SameTok(a, b) == a.ty = b.ty /\ (a.ty \in {"IDENT", "INT", "FLOAT", "STRING", "RAW_STRING"} => a.lit = b.lit)
+RECURSIVE MatchYield(_, _, _, _)
+MatchYield(y, i, toks, j) ==
+  IF i > Len(y) THEN toks[j].ty = "EOF"
+  ELSE IF y[i].opt THEN
+         IF toks[j].ty = "SEMICOLON" THEN MatchYield(y, i + 1, toks, j + 1)
+         ELSE \* virtual semicolon in front of toks[j]: ES rule 1 (offending token)
+              /\ \/ toks[j].ty \in {"EOF", "RBRACE"}
+                 \/ toks[j].nl /\ ~ContinuesAcrossNewline(toks[j].ty)
+                 \/ toks[j].nl /\ toks[j].ty \in {"INCREMENT", "DECREMENT"}
+              /\ MatchYield(y, i + 1, toks, j)
+  ELSE /\ j <= Len(toks) /\ SameTok(y[i], toks[j])
+       /\ (y[i].nonl => ~toks[j].nl)         \* restricted productions not crossed
+       /\ MatchYield(y, i + 1, toks, j + 1)
+
+C02_Yield(toks, tree) == MatchYield(YieldSeq(tree.c, 1), 1, toks, 1)
+C02_WF(tree) == WellFormedES(tree, <<>>)
+C02_Failures(toks, res, expect) ==
+  (IF Len(res.errors) = 0 /\ ~res.err THEN {} ELSE {"subset_program_rejected"})
+  \cup (IF Strip(res.tree) = expect THEN {} ELSE {"tree_differs_from_ecmascript"})
+  \cup (IF Len(res.errors) > 0 \/ (C02_Yield(toks, res.tree) /\ C02_WF(res.tree)) THEN {} ELSE {"yield_or_levels"})
 
 =============================================================================
